@@ -60,5 +60,6 @@ Definition run_socks (c : list N) : list N :=
       | Some (a, port :: data) => put_lp (udp_relay_response a port data) ++ [1]
       | _ => MALFORMED
       end
+  | 7 :: i => match client_dialog5 i with Some o => put_lp o | None => MALFORMED end
   | _ => MALFORMED
   end.
